@@ -30,6 +30,9 @@ var c13Profiles = []delayProfile{
 	{"none", ""},
 	{"decode-prove", "prove.afterDecode=25:25"},
 	{"read+write", "prove.afterRead=10:20,prove.afterProve=10:20"},
+	// barriers: handlers are released in pairs right before a proof is serialised and right before it is written,
+	// so that the code between the prover and the socket runs in two requests at the same moment
+	{"barrier", "prove.afterProve=@2:2000,prove.beforeWrite=@2:1000"},
 }
 
 // countRaces counts and deduplicates data race reports in the race detector's log files.
@@ -142,6 +145,9 @@ func c13Mode(o *cli.Opts, run *evid.Run, bin, mode string) {
 		}
 		for rd := 0; rd < roundsPerProfile; rd++ {
 			n := sizes[(pi*roundsPerProfile+rd)%len(sizes)]
+			if prof.name == "barrier" {
+				n = []int{4, 8}[rd%2]
+			}
 			rkey := fmt.Sprintf("%s/%s/round%d", key, prof.name, rd)
 			if !run.Wants(rkey) {
 				continue
